@@ -10,6 +10,7 @@ import (
 type Case struct {
 	Shards int    `json:"shards"`
 	Store  string `json:"store,omitempty"` // "" / "local": in-memory store; "k8s": API-backed store (write-through) over a fake API
+	Wire   bool   `json:"wire,omitempty"`  // heartbeats, reports, acquires go through the generated client and the real HTTP handler chain
 	Ops    []Op   `json:"ops"`
 }
 
